@@ -38,11 +38,12 @@ EXTRA_MODULES = {
     "C07": ["Tie.Plan", "Tie.Subband", "Kernels.InvertFreq", "Kernels.MaskChannels", "Kernels.Subband",
             "Kernels.RemoveZerodm", "Kernels.Downsample2d"],
     "C08": ["Tie.HeaderUpdates"],
-    "C09": ["Tie.Dedisperse", "Tie.Subband", "Kernels.Dedisperse", "Kernels.Subband", "Kernels.RollBlock"],
+    "C09": ["Tie.Dedisperse", "Tie.Subband", "Kernels.Dedisperse", "Kernels.Subband", "Kernels.RollBlock", "Kernels.DmtBlock"],
     "C10": ["Tie.Moments"],
     "C11": ["Tie.Plan", "Tie.Fold", "Kernels.Fold"],
     "C14": ["Kernels.Downsample1d", "Kernels.Downsample2d"],
-    "C16": ["Kernels.MaskChannels"],
+    "C16": ["Kernels.MaskChannels", "Tie.StateMachines"],
+    "C17": ["Tie.StateMachines"],
     "C18": ["Tie.Plan", "Tie.Pfits"],
     "C19": ["Tie.Prange"],
     "C20": ["Tie.WriterOps", "Tie.Bits", "Tie.SigprocTables"],
